@@ -64,6 +64,7 @@ impl State for S {
         match ws {
             ["mix", _seed, _threads, _ops] => run_child(ws, Duration::from_secs(60)),
             ["reentry", _op] => run_child(ws, Duration::from_millis(4000)),
+            ["cycle", ..] => run_child(ws, Duration::from_millis(8000)),
             _ => "bad-op".into(),
         }
     }
@@ -140,6 +141,43 @@ fn one_op(db: DbPtr, dir: &std::path::Path, rng: &mut Rng, tid: u64, i: u64) {
     }
 }
 
+/// one public API operation, by the name the lock-relation extractor gives its root
+fn api_op(db: DbPtr, dir: &std::path::Path, op: &str) {
+    match op {
+        "capi:ndb_search_vector" => search(db),
+        "capi:ndb_txn_commit" => {
+            let txn = begin(db);
+            if !txn.is_null() {
+                ndb_txn_query(txn, cs("CREATE (:T {k: 7})").as_ptr(), ptr::null());
+                let v = [0.25f32, 1.0, 0.5];
+                ndb_txn_set_vector(txn, 1, v.as_ptr(), 3);
+                ndb_txn_commit(txn);
+            }
+        }
+        "capi:ndb_execute_write" => {
+            exec_write(db, "MATCH (n:P) SET n.v = n.v + 1 CREATE (:A)");
+        }
+        "capi:ndb_create_index" => {
+            ndb_create_index(db.0, cs("P").as_ptr(), cs("k").as_ptr());
+        }
+        "capi:ndb_compact" => {
+            ndb_compact(db.0);
+        }
+        "capi:ndb_checkpoint" => {
+            ndb_checkpoint(db.0);
+        }
+        "capi:ndb_query" => {
+            let _ = query_json(db, "MATCH (n:P {k: 0}) RETURN n.v AS v");
+        }
+        "capi:ndb_backup" => {
+            let b = dir.join("bk-cycle");
+            let _ = std::fs::create_dir_all(&b);
+            ndb_backup(cs(&dir.join("db").to_string_lossy()).as_ptr(), cs(&b.to_string_lossy()).as_ptr());
+        }
+        _ => {}
+    }
+}
+
 /// `nvh child locks mix <seed> <threads> <ops>` / `nvh child locks reentry <op>`
 fn child(args: &[String]) -> i32 {
     let a: Vec<&str> = args.iter().map(|s| s.as_str()).collect();
@@ -165,6 +203,48 @@ fn child(args: &[String]) -> i32 {
                 .collect();
             for h in hs {
                 let _ = h.join();
+            }
+            ndb_close(db.0);
+            println!("done");
+            0
+        }
+        ["cycle", specs @ ..] => {
+            // forced schedule derived from a feasible cycle of the lock relation: thread i runs the API
+            // operation that owns edge i and parks right after taking the cycle lock it holds
+            // (hook `lock.<fn>.<lock>`); when all are parked (or could not be) they are released together.
+            // A real cycle then leaves them waiting for each other: the parent's watchdog reports HANG.
+            let dir = tempfile::tempdir().unwrap();
+            let db = open_db(dir.path());
+            exec_write(db, "CREATE (:P {k: 0, v: 0})-[:R]->(:Q {k: 0})");
+            {
+                // a vector, so that the vector index is not empty
+                let txn = begin(db);
+                let v = [1.0f32, 0.5, 0.25];
+                ndb_txn_set_vector(txn, 0, v.as_ptr(), 3);
+                ndb_txn_commit(txn);
+            }
+            let ctl = crate::sched::ctl();
+            let path = dir.path().to_path_buf();
+            let mut workers = Vec::new();
+            for (i, spec) in specs.iter().enumerate() {
+                let parts: Vec<&str> = spec.split('@').collect();
+                if parts.len() != 3 {
+                    println!("bad-op");
+                    return 0;
+                }
+                let (op, point) = (parts[0].to_string(), format!("lock.{}.{}", parts[1], parts[2]));
+                let role = format!("T{}", i);
+                let path = path.clone();
+                let w = ctl.spawn(&role, Some(&point), move || api_op(db, &path, &op));
+                // parked, finished, or blocked on a lock a parked thread holds: all fine, go on
+                let _ = ctl.wait(&role, Duration::from_millis(1500));
+                workers.push((role, w));
+            }
+            for (role, _) in &workers {
+                ctl.release(role);
+            }
+            for (_, w) in workers {
+                let _ = w.join();
             }
             ndb_close(db.0);
             println!("done");
